@@ -80,8 +80,18 @@ def outcome_matches(obs, exp) -> bool:
     return obs[1] == exp[1]
 
 
+def _own(v):
+    """A value object of its own (what parsing JSON gives): equal numbers / strings in two instances are two objects, never one shared one."""
+    if isinstance(v, int) and not isinstance(v, bool):
+        return int(str(v))
+    if isinstance(v, str):
+        return "".join(list(v))
+    return v
+
+
 def mk(live: Live, cname: str, vals):
     T = live.types
+    vals = [_own(v) for v in vals]
     if cname == "Position":
         return T.Position(line=vals[0], character=vals[1])
     if cname == "Range":
@@ -127,7 +137,7 @@ def unrelated_from_model(live: Live, world, m: Dict[str, Any]):
     return _Unrelated()
 
 
-GRID_INTS = [0, 1, 2, 5, 10, UMAX]
+GRID_INTS = [0, 1, 2, 5, 257, UMAX]
 URIS = ["file:///a", "file:///b", "file:///c%3A/w/a.py", "file:///c:/w/a.py", "file:///a%20b", "file:///a b", "FILE:///A", "file:///a/", "file:///\u00e9", "file:///e\u0301", ""]
 
 
@@ -149,6 +159,16 @@ def unrelated_grid(live: Live, cname: str) -> List[Any]:
     return out
 
 
+def lookalikes(a) -> List[Any]:
+    """Foreign objects that merely carry the same attribute names and values (duck typing must not make them equal / ordered)."""
+    import collections
+    import types as _t
+
+    fields = {f: getattr(a, f) for f in cp.FIELDS[type(a).__name__]}
+    nt = collections.namedtuple("Lookalike", list(fields))
+    return [_t.SimpleNamespace(**fields), nt(**fields), _t.SimpleNamespace(**{k: (v if i else None) for i, (k, v) in enumerate(fields.items())})]
+
+
 def native_search(live: Live, lemma_id: str, fname: str) -> Tuple[int, List[Dict[str, Any]]]:
     ns = native_ns(live)
     cname, what = lemma_id.split(":", 1)
@@ -160,7 +180,7 @@ def native_search(live: Live, lemma_id: str, fname: str) -> Tuple[int, List[Dict
     elif what == "repr":
         cases = ([a] for a in objs)
     else:
-        cases = ([a, x] for a in objs[:6] for x in unrelated_grid(live, cname))
+        cases = ([a, x] for a in objs[:6] for x in unrelated_grid(live, cname) + lookalikes(a))
     for args in cases:
         n += 1
         obs = run_native(ns, fname, args)
